@@ -355,6 +355,20 @@ def f12(ctx, rid):
     for kind in ('load', 'dump'):
         for (f, c, lv, st) in sides[kind]:
             key = 'index-size-one-notion|%s|%s' % (prog.fns[f.id].root, kind)
+            # .. and it is the size of the blob *now*: a size read before an append of this body and used after it is another
+            # quantity (`let size = file_size(); write(..); index.load(size)`)
+            L12, _E12 = prog.may_reach()
+            stale = None
+            for o in core.origins(f, c.args[1]):
+                if o.kind != 'call' or o.fn.id != f.id:
+                    continue
+                for a in f.calls:
+                    if a.bb in f.reachable() and a.name != 'poll' and a.bb in f.reach_from(f.after(o.data.bb)) and c.bb in f.reach_from(f.after(a.bb)) \
+                       and any(t in prog.fns and any('write_append' in x for x in [t] + sorted(L12.get(t, ()))) for t in prog.resolve(a)):
+                        stale = (o.data, a)
+            if stale:
+                ctx.bad(rid, key, c.where(), 'the blob size given to the index %s was read (%s) before an append of this body (%s): the index is validated against a size the blob no longer has' % (kind, stale[0].where(), stale[1].where()))
+                continue
             if (lv, st) == (ref[2], ref[3]):
                 ctx.ok(rid, key, c.where(), 'size operand computed from %s' % sorted(lv))
             else:
@@ -376,13 +390,7 @@ def f13(ctx, rid):
     for f in prog.fns.values():
         if not f.is_coroutine or not (f.file.startswith('src/storage/') or f.file.startswith('src/blob/')):
             continue
-        adds, rems = [], []
-        for c in f.calls:
-            if c.bb not in f.reachable() or c.name == 'poll':
-                continue
-            for t in prog.resolve(c):
-                for (fld, kind) in eff.get(t, ()):
-                    (adds if kind == 'add' else rems).append((c, fld))
+        adds, rems = c14.collection_sites(prog, f, eff)
         for (a, fa) in adds:
             mine = [r.bb for (r, fr) in rems if fr == fa and r is not a and r.bb in f.reach_from(f.after(a.bb))]
             if not mine:
